@@ -968,7 +968,14 @@ func (env *Env) methodCall(recv *Val, name string, args []ast.Expr) *Val {
 		if !ok {
 			specErr("no method %s on %v", name, recv.Ty)
 		}
-		rs := e.ifaceMethodApp(env.st, fn, recv, avs)
+		var rs []*Val
+		if env.closed {
+			e.rawIface = true // under a binder: plain applications, nothing named
+			rs = e.ifaceMethodApp(env.st, fn, recv, avs)
+			e.rawIface = false
+		} else {
+			rs = e.ifaceMethodApp(env.sinkOr(), fn, recv, avs)
+		}
 		if len(rs) != 1 {
 			return &Val{Tup: rs}
 		}
